@@ -85,6 +85,13 @@ func (v *PacketDslVisitorImpl) VisitPacket(ctx *gen.PacketContext) interface{} {
 			switch c := decl.(type) {
 			case *gen.RefMetaDataDeclarationContext:
 				result := v.VisitRefMetaDataDeclaration(c).(model.MetaData)
+				if result.Attr == nil {
+					v.BinModel.AddSyntaxError(&model.SyntaxError{
+						Line:   result.Line,
+						Column: result.Column,
+						Msg:    "Unknown metadata type " + c.GetTyp().GetText() + " for " + result.Name,
+					})
+				}
 				v.BinModel.AddMetaData(result)
 			case *gen.MetaDataDeclarationContext:
 				result := v.metaDataDeclarationToMetaData(c).(model.MetaData)
@@ -322,7 +329,7 @@ func (v *PacketDslVisitorImpl) VisitLengthFieldDeclaration(ctx *gen.LengthFieldD
 	if ctx.Type_() != nil {
 		typ = ctx.Type_().GetText()
 	}
-	if v.BinModel.MetaDataMap[name] != (model.MetaData{}) {
+	if v.BinModel.MetaDataMap[name].Attr != nil {
 		// If metadata exists, use its basic type
 		typ = v.BinModel.MetaDataMap[name].Attr.GetType()
 	}
@@ -350,7 +357,7 @@ func (v *PacketDslVisitorImpl) VisitCheckSumFieldDeclaration(ctx *gen.CheckSumFi
 	if ctx.Type_() != nil {
 		typ = ctx.Type_().GetText()
 	}
-	if v.BinModel.MetaDataMap[name] != (model.MetaData{}) {
+	if v.BinModel.MetaDataMap[name].Attr != nil {
 		// If metadata exists, use its basic type
 		typ = v.BinModel.MetaDataMap[name].Attr.GetType()
 	}
